@@ -293,6 +293,7 @@ let parse_addr_tok (t : string) : addr =
 
 (* gossip loop (C19) *)
 let lstate = ref ls_init
+let pending_sends : outkind list ref = ref []
 let ltrace : action list ref = ref []
 
 let node_at (i : int) : node =
@@ -495,6 +496,13 @@ let exec (c : cursor) : outcome =
         | "cmdgossip" -> Some ECmdGossip
         | "userlock" -> Some EUserLock
         | "shutdown" -> Some ECmdShutdown
+        | "gossipthenshutdown" ->
+            (* two commands queued back to back: the first is stepped here, the second below *)
+            let s1, acts1 = step0 !lstate ECmdGossip in
+            lstate := s1;
+            ltrace := !ltrace @ acts1;
+            pending_sends := List.filter_map (fun a -> match a with ASend k -> Some k | _ -> None) acts1;
+            Some ECmdShutdown
         | "finalshutdown" -> None
         | t -> fail "bad loop event %S" t
       in
@@ -507,7 +515,8 @@ let exec (c : cursor) : outcome =
            lstate := s';
            (* the harness itself takes the lock after every event to read the heartbeat *)
            ltrace := !ltrace @ acts @ [ AUserLock; AUserUnlock ];
-           let sends = List.filter_map (fun a -> match a with ASend k -> Some k | _ -> None) acts in
+           let sends = !pending_sends @ List.filter_map (fun a -> match a with ASend k -> Some k | _ -> None) acts in
+           pending_sends := [];
            let kind = function OSyn -> "syn" | OSynAck -> "synack" | OAck -> "ack" | OBadCluster -> "badcluster" in
            Obs (Printf.sprintf "stopped %s hb %s sends %d%s lockviol 0"
                   (match s'.ls_stopped with None -> "none" | Some LOk -> "ok" | Some LErr -> "err" | Some LPanicked -> "panicked")
